@@ -285,6 +285,10 @@ func (f *file) Close() error {
 	}
 
 	if err := f.ioc.UnsetReadWrite(&f.slot); err != nil {
+		// The poller could not drop the interests (it is closed, or the descriptor left its set some other way). The
+		// descriptor is still this object's, and a second Close does nothing: release it now or it is never released.
+		f.ioc.Deregister(&f.slot)
+		_ = syscall.Close(f.slot.Fd)
 		return err
 	}
 	f.ioc.Deregister(&f.slot)
